@@ -53,6 +53,17 @@ HAND = [
 ]
 
 
+# annotations the specification says must be ignored (unknown name, or a known name on the wrong base type): the
+# underlying type is what is resolved, promotions included
+UNKNOWN_LOGICAL = ("customer-id", "made-up", "date-on-long", "uuid-on-bytes")
+HAND.append({"type": "record", "name": "Annot", "fields": [
+    {"name": "s", "type": {"type": "string", "logicalType": "customer-id"}}, {"name": "i", "type": {"type": "int", "logicalType": "made-up"}},
+    {"name": "l", "type": {"type": "long", "logicalType": "made-up"}}, {"name": "f", "type": {"type": "float", "logicalType": "made-up"}},
+    {"name": "b", "type": {"type": "bytes", "logicalType": "customer-id"}},
+    {"name": "a", "type": {"type": "array", "items": {"type": "int", "logicalType": "customer-id"}}},
+    {"name": "u", "type": ["null", {"type": "string", "logicalType": "made-up"}]}]})
+
+
 def has_namespace(s):
     t = json.dumps(s)
     return '"namespace"' in t or any("." in n for n in _names(s))
@@ -153,7 +164,7 @@ def steps(W):
 
     for path, kind in positions(src):
         node = get(src, path)
-        if kind == "name" or (kind == "schema" and node.get("type") in PRIMS and set(node) == {"type"}):
+        if kind == "name" or (kind == "schema" and node.get("type") in PRIMS and (set(node) == {"type"} or node.get("logicalType") in UNKNOWN_LOGICAL)):
             t = node if isinstance(node, str) else node["type"]
             if t in PRIMS:
                 for other in PRIMS:
